@@ -371,7 +371,10 @@ func run(c *mon.Ctx) {
 		if !c.Mine(b) {
 			continue
 		}
-		for _, k := range []string{string([]byte{byte(b)}), "a" + string([]byte{byte(b)}) + "b", string([]byte{byte(b)}) + "ref"} {
+		bs := string([]byte{byte(b)})
+		// the byte alone, inside and in front of plain text, and next to a second character that needs an
+		// escape of its own (two \uXXXX escapes, a \u escape beside a short one, beside a quote)
+		for _, k := range []string{bs, "a" + bs + "b", bs + "ref", bs + "\x02", "\x01" + bs, bs + "\u2028", "\x7f" + bs + "\x1f", bs + "\\", bs + "'\n"} {
 			c.Cover("key-bytes")
 			c.DistinctEnum(5)
 			ck.lossy = !utf8.ValidString(k)
